@@ -101,6 +101,13 @@ BeginVote(c) == /\ ~InFinish /\ pc[c] = "txn" /\ dirty[c] # {} /\ commitLock = N
                         /\ dirty' = [dirty EXCEPT ![c] = {}] /\ rc' = [rc EXCEPT ![c] = {}] /\ pc' = [pc EXCEPT ![c] = "idle"]
                         /\ UNCHANGED <<commitLock, ctid>>
                 /\ UNCHANGED <<hist, sLtid, start, inval, iLtid, polled, pending, pool, closes>>
+\* a voted transaction is aborted (another participant's vote failed): Connection.tpc_abort -> storage.tpc_abort
+\* releases the commit lock, the modified copies are dropped
+AbortVoted(c) == /\ pc[c] = "voted" /\ c \notin UndoAgents
+                 /\ commitLock' = None
+                 /\ cache' = [cache EXCEPT ![c] = [o \in Oid |-> IF o \in dirty[c] THEN 0 ELSE cache[c][o]]]
+                 /\ dirty' = [dirty EXCEPT ![c] = {}] /\ rc' = [rc EXCEPT ![c] = {}] /\ pc' = [pc EXCEPT ![c] = "idle"]
+                 /\ UNCHANGED <<hist, sLtid, start, inval, iLtid, polled, pending, ctid, pool, closes>>
 \* DB.undo / undoMultiple: a transaction of its own (UndoAdapterInstance) that writes the objects of the undone
 \* transactions; its finish invalidates them in EVERY registered instance
 UndoVote(u, oids, ok) ==
@@ -132,6 +139,8 @@ Next == \/ \E c \in Conn : OpenNew(c) \/ OpenPooled(c) \/ Close(c) \/ PollRead(c
         \/ \E c \in Conn, o \in Oid : Read(c, o) \/ Write(c, o) \/ ReadCurrent(c, o)
         \/ \E c \in Conn, j \in Conn : Deliver(c, j)
         \/ \E u \in UndoAgents, oids \in SUBSET Oid : UndoVote(u, oids, TRUE)
+\* (kept apart from Next: the behaviours TLC simulates for the directed driver do not contain failing participants)
+NextVA == Next \/ \E c \in Conn : AbortVoted(c)
 Spec == Init /\ [][Next]_vars
 
 (* ------------------------------ properties ------------------------------ *)
